@@ -248,6 +248,15 @@ def cumulative_contraction(mk, geom, expo):
         t2 = tn.copy()
         r = t2.contract_cumulative(list(seq[:-1]) or list(seq), inplace=True)
         mk.eq(f"cumulative partial inplace {seq[:-1]}", as_value(r, out, mk), want)
+        # partial, NOT in place, with every exponent / norm option: the partially contracted network denotes the value, and
+        # the receiver still does afterwards (nothing it shares with the result may have been rescaled)
+        if len(seq) >= 2:
+            for okw in ({}, {"strip_exponent": True}, {"equalize_norms": True}, {"equalize_norms": 1.0}):
+                part = tn.contract_cumulative(list(seq[:-1]), **okw)
+                pv = part[0] * 10 ** part[1] if isinstance(part, tuple) else part
+                mk.eq(f"cumulative partial {seq[:-1]} {okw}: result denotes the value",
+                      ref.tn_dense(pv, out) if hasattr(pv, "tensor_map") else as_value(part, out, mk), want)
+                mk.eq(f"cumulative partial {seq[:-1]} {okw}: the receiver still denotes the value", ref.tn_dense(tn, out), want)
 
 
 @obligation(PROP, params=[{"geom": g, "expo": x} for g in ("chain3", "loop3", "hyper3", "dim1") for x in ("sym", "default")])
@@ -380,6 +389,16 @@ def linear_operator(mk, geom):
     mk.eq("to_dense()", op.to_dense(), M)
     mk.eq("A.H.to_dense()", op.H.to_dense(), ref.dag(M))
     mk.eq("rmatvec", op.rmatvec(u), ref.matmul(ref.dag(M), u))
+    if not mk.sym:
+        # the stored exponent need not be a python float: an int, a numpy.float32 (what equalize_norms_(value)
+        # accumulates on float32 / complex64 networks) ... must all scale the operator
+        base = ref.tn_dense(tn, tuple(left) + tuple(right), with_exponent=False).reshape(dl, dr)
+        for ex in (2, np.float32(0.5), np.float64(-1.25), 1.5):
+            t2 = tn.copy()
+            t2.exponent = ex
+            o2 = tc.TNLinearOperator(t2, left_inds=left, right_inds=right)
+            mk.eq(f"stored exponent of type {type(ex).__name__}: to_dense() == 10**e * M", o2.to_dense(), base * 10.0 ** float(ex), tol=1e-6)
+            mk.eq(f"stored exponent of type {type(ex).__name__}: A @ v", o2 @ v, (base * 10.0 ** float(ex)) @ v, tol=1e-6)
     # every word of length <= 3 over the derivations {H, T, conj}: dense form, action, trace, astype
     import itertools as _it
     conjM = ref.dag(M).T
@@ -439,3 +458,37 @@ def structured_1d(mk, L, cyclic):
     mk.eq("(mps.H & mps) ^ ...", as_value(ov ^ ..., (), mk), tot)
     mk.eq("(mps.H & mps) ^ all", as_value(ov ^ all, (), mk), tot)
     mk.eq("mps.H @ mps", mps.H @ mps, tot)
+
+
+@obligation(PROP, numeric=True)
+def tiny_complex_values_numeric(mk):
+    """[numeric-only supplement] every scalar route on complex networks whose value is tiny (1e-10 ... 1e-20): the
+    result keeps its imaginary part and agrees with the reference to 1e-9 RELATIVE accuracy (symbolically the scalar
+    'realification' of results is an identity stub, so this float-level behaviour is only visible here)"""
+    mk.encodes(tc.maybe_realify_scalar, tc.tensor_contract, tc.TensorNetwork.contract_tags, tc.TensorNetwork.contract_cumulative)
+    if mk.sym:
+        mk.same("numeric-only obligation", True, True)
+        return
+    rng = np.random.default_rng(3)
+    for scale in (1e-5, 1e-7, 1e-10):
+        a = (rng.normal(size=(2, 3)) + 1j * rng.normal(size=(2, 3))) * scale
+        b = (rng.normal(size=(3, 2)) + 1j * rng.normal(size=(3, 2))) * scale
+        cc = rng.normal(size=(2, 2)) + 1j * rng.normal(size=(2, 2))
+        ts = [qtn.Tensor(a, ("x", "y"), tags="A"), qtn.Tensor(b, ("y", "z"), tags="B"), qtn.Tensor(cc, ("z", "x"), tags="C")]
+        tn = qtn.TensorNetwork(ts)
+        want = np.einsum("xy,yz,zx->", a, b, cc)
+        routes = {
+            "tensor_contract(*ts)": lambda: tc.tensor_contract(*ts),
+            "tn.contract(all)": lambda: tn.contract(all),
+            "tn ^ all": lambda: tn ^ all,
+            "contract_tags(all)": lambda: tn.contract_tags(all),
+            "contract_tags(['A','B','C'], which='any')": lambda: tn.contract_tags(["A", "B", "C"], which="any"),
+            "contract_cumulative": lambda: tn.contract_cumulative(["A", "B", "C"]),
+            "tn >> tags": lambda: tn >> ["A", "B", "C"],
+            "strip_exponent": lambda: (lambda m, e: m * 10 ** e)(*tn.contract(all, strip_exponent=True)),
+            "Tensor @ Tensor @ Tensor": lambda: (ts[0] @ ts[1]) @ ts[2],
+        }
+        for name, fn in routes.items():
+            got = complex(fn())
+            mk.same(f"[numeric-only] scale {scale}: {name} relative error below 1e-9 (imaginary part kept)",
+                    bool(abs(got - want) <= 1e-9 * abs(want)), True)
